@@ -247,6 +247,10 @@ def cli_argv(sc):
     argv = (["-v"] if sc["verbose"] else []) + [sc["cmd"], sc["module"] + (":" + sc["qualname"] if sc["qualname"] is not None else "")]
     if sc["sample_count"]:
         argv.append("--sample-count")
+    if sc.get("ignore"):
+        argv.append("--ignore-existing-annotations")
+    if sc.get("diff"):
+        argv.append("--diff")
     return argv
 
 
@@ -356,9 +360,10 @@ def gen_worlds(tier, rnd):
     return ws
 
 
-def sc(world, tags, module=fx.TARGET, qualname=None, cmd="stub", verbose=False, sample_count=False, family=""):
+def sc(world, tags, module=fx.TARGET, qualname=None, cmd="stub", verbose=False, sample_count=False, family="",
+       diff=False, ignore=False):
     return {"world": world, "tags": list(tags), "module": module, "qualname": qualname, "cmd": cmd,
-            "verbose": verbose, "sample_count": sample_count, "family": family}
+            "verbose": verbose, "sample_count": sample_count, "family": family, "diff": diff, "ignore": ignore}
 
 
 def gen_scenarios(tier, rnd, env):
@@ -443,6 +448,29 @@ def gen_scenarios(tier, rnd, env):
         if not quick:
             out.append(sc(WTYPES, store, cmd="stub" if j % 2 else "apply", verbose=not bool((j // 2) % 2),
                           sample_count=True, family="two-stale-facts-in-one-row"))
+    # (d4) local-scope rows: alone (nothing decodable, count 2) and among valid rows, in the unmutated and the mutated world
+    for w in (W0, WALL):
+        out += [
+            sc(w, ["local", "local2"], family="local-scope"),
+            sc(w, ["local2", "local"], verbose=True, family="local-scope"),
+            sc(w, ["local", "local2"], cmd="apply", family="local-scope"),
+            sc(w, ["ok_a", "local", "meth", "local2", "gen"], verbose=(w == W0), family="local-scope"),
+        ]
+    out.append(sc(W0, ["local2", "ok_a", "local"], cmd="apply", verbose=True, family="local-scope"))
+    # (d5) `stub --diff` (two passes of get_stub: the report appears twice), every world, a store with some valid rows and
+    # a store with none, with and without -v / --ignore-existing-annotations
+    cand = ["removed", "argcls", "nontype", "retcls", "cls", "yieldcls", "nt_opt_fn", "params_argcls"]
+    for w in range(nw - 1):
+        muts = set(env.worlds[w]["muts"])
+        st = [t for t in cand if fx.expected(t, muts) != "ok"][:3]
+        some = ["ok2", "local"] + st[:2] + ["meth", "local2"] + st[2:] + ["ok_a"]
+        none = ["local"] + st + ["local2"]
+        out.append(sc(w, some, diff=True, verbose=bool(w % 2), ignore=bool((w // 2) % 2), family="stub-diff"))
+        out.append(sc(w, none, diff=True, verbose=not bool(w % 2), ignore=bool(w % 2), family="stub-diff"))
+        if not quick:
+            out.append(sc(w, some, diff=True, verbose=not bool(w % 2), ignore=True, family="stub-diff"))
+            out.append(sc(w, none, diff=True, verbose=bool(w % 2), family="stub-diff"))
+    out.append(sc(WALL, [], diff=True, family="stub-diff"))
     # (e) the unmutated package: the whole pool decodes except the local-scope function
     out.append(sc(W0, tags, sample_count=True, family="unmutated"))
     out.append(sc(WALL, tags, verbose=True, sample_count=True, family="whole-pool"))
@@ -476,15 +504,21 @@ def evaluate(env, scenarios, workname):
         tags1 = [env.tag_of[tuple(r)] for r in rows1]
         real1 = [results[t] for t in tags1]
         muts = set(env.worlds[s["world"]]["muts"])
-        exp1 = [fx.expected(t, muts) for t in tags1]
-        # the rows that are valid BY CONSTRUCTION of the fixture (not: the rows the implementation says it can decode)
-        tags2 = [t for t, e in zip(tags1, exp1) if e == "ok"]
-        prepared.append({"s": s, "dir": d, "db": db, "rows1": rows1, "tags1": tags1, "real1": real1, "exp1": exp1, "tags2": tags2})
+        # What the command has to deal with is known BY CONSTRUCTION: the rows that were inserted for this module
+        # (and specifier), not what the implementation's store query chooses to return; and which of them are valid
+        # is known from the fixture, not from what the implementation says it can decode.
+        sel = [t for t in s["tags"] if env.pool[t][0] == s["module"]
+               and (s["qualname"] is None or env.pool[t][1].startswith(s["qualname"]))]
+        exp1 = [fx.expected(t, muts) for t in sel]
+        tags2 = [t for t, e in zip(sel, exp1) if e == "ok"]
+        prepared.append({"s": s, "dir": d, "db": db, "rows1": rows1, "tags1": tags1, "real1": real1, "inserted": sel,
+                         "exp1": exp1, "tags2": tags2})
     # second runs (decodable rows alone), shared between scenarios that agree on everything that matters
     second = {}
     for p in prepared:
         s = p["s"]
-        key = (s["world"], s["module"], s["qualname"], tuple(p["tags2"]), s["cmd"], s["sample_count"])
+        key = (s["world"], s["module"], s["qualname"], tuple(p["tags2"]), s["cmd"], s["sample_count"],
+               bool(s.get("diff")), bool(s.get("ignore")))
         p["key2"] = key
         if key not in second:
             d, db, rows2 = env.prepare(s["world"], s["module"], s["qualname"], p["tags2"])
@@ -519,7 +553,7 @@ def evaluate(env, scenarios, workname):
                 f"{coq_bool(s['sample_count'])} {coq_bool(os.path.exists(os.path.join(rundir, s['module'])))} "
                 f"{coq_str(os.path.splitext(s['module'])[0])})")
         terms.append(
-            f"SCase {env.worlds[s['world']]['name']} {args}\n    {coq_list(row_term(r) for r in p['rows1'])}\n"
+            f"SCase {env.worlds[s['world']]['name']} {args} {coq_bool(bool(s.get('diff')))}\n    {coq_list(row_term(r) for r in p['rows1'])}\n"
             f"    {coq_list(exp_term(e) for e in p['exp1'])}\n    {outcome_term(*p['obs1'])}\n"
             f"    {coq_list(row_term(r) for r in s2['rows2'])}\n    {outcome_term(*s2['obs2'])}")
     return terms, prepared
@@ -527,7 +561,8 @@ def evaluate(env, scenarios, workname):
 
 def describe(env, p):
     s = p["s"]
-    return (f"world(mutations)={env.worlds[s['world']]['muts']} rows(in store order)={p['tags1']} "
+    return (f"world(mutations)={env.worlds[s['world']]['muts']} rows inserted={p['inserted']} "
+            f"(valid/stale by construction: {p['exp1']}) rows returned by the store query={p['tags1']} "
             f"argv={cli_argv(s)} -> rc={p['obs1'][0]} stdout={p['obs1'][1][:300]!r} stderr={p['obs1'][2][-600:]!r}; "
             f"rows valid by construction alone {p['tags2']} -> rc={p['obs2'][0]} stdout={p['obs2'][1][:300]!r} stderr={p['obs2'][2][-300:]!r}")
 
@@ -731,7 +766,7 @@ def replay(ctx, payload):
     s["world"] = 0
     terms, prepared = evaluate(env, [s], "replay")
     out = _eval_coq(ctx.work, "c10replay", HEADER + env.world_defs() + "\n", terms, "scase",
-                    "(map verdict_cli cases, map (fun c => model_run c (sc_rows1 c)) cases, map prop_pred cases)")
+                    "(map verdict_cli cases, map (fun c => model_run_any c (sc_rows1 c)) cases, map prop_pred cases)")
     print("implementation:", describe(env, prepared[0]))
     print("(verdict, model outcome, property predicate on the implementation's output):", out[-3000:])
     return 0
